@@ -471,7 +471,8 @@ func (a *App) Run(w Widget) error {
 			win := a.vx.Window()
 			win.Clear()
 			a.vx.HideCursor()
-			s.render(win, a.fh.focused)
+			// the root clips its children like every other surface
+			s.render(win.New(0, 0, int(s.Size.Width), int(s.Size.Height)), a.fh.focused)
 
 			switch a.refresh {
 			case true:
